@@ -6,7 +6,7 @@ type EngineFunc func(w *World, tier string) *EngineResult
 
 type EngineSpec struct {
 	Name   string
-	Filter func(o Obligation) bool // nil = all obligations of the engine
+	Filter func(w *World, o Obligation) bool // nil = all obligations of the engine
 }
 
 type PropertySpec struct {
@@ -24,7 +24,7 @@ var ruleEngine = map[string]string{}
 func all(name string) EngineSpec { return EngineSpec{Name: name} }
 
 func rules(name string, prefixes ...string) EngineSpec {
-	return EngineSpec{Name: name, Filter: func(o Obligation) bool {
+	return EngineSpec{Name: name, Filter: func(w *World, o Obligation) bool {
 		for _, p := range prefixes {
 			if o.Rule == p || strings.HasPrefix(o.Rule, p+"-") {
 				return true
@@ -35,7 +35,7 @@ func rules(name string, prefixes ...string) EngineSpec {
 }
 
 func inPkgs(name string, pkgs ...string) EngineSpec {
-	return EngineSpec{Name: name, Filter: func(o Obligation) bool {
+	return EngineSpec{Name: name, Filter: func(w *World, o Obligation) bool {
 		for _, p := range pkgs {
 			if strings.HasPrefix(o.Func, p+".") {
 				return true
@@ -64,3 +64,7 @@ func init() { engines["MO"] = engineMO }
 func init() { engines["SE"] = engineSE }
 
 func init() { engines["PAIR"] = enginePAIR }
+
+func init() { engines["REC"] = engineREC }
+
+func init() { engines["REG"] = engineREG }
